@@ -18,8 +18,10 @@ def consts(ctx):
     expr = m.group(1) if m else "0"
     ctx.gen_consts_go(PKG, ["certValidity", "clockSkewAllowance"], exprs={"verifyMaxLifetime": expr}, extra_imports=["time"])
     # which certificate of the presented chain verifyRawCerts inspects: 1 = the last one
-    # (rawCerts[len(rawCerts)-1], pinned tree), 0 = rawCerts[0], the one TLS authenticates
-    # (fixes/C18-verifier-leaf-of-chain.diff).  A wrong guess here shows up as a conformance
+    # (rawCerts[len(rawCerts)-1], the tree before a6acc86), 0 = rawCerts[0], the one TLS authenticates.
+    # The theorems are proved for 0 (c18_verifier_inspects_first): a source that goes back to the last
+    # entry breaks that obligation AND makes the harness's chains of two fail the monitor with concrete
+    # cases.  A wrong guess of this regex shows up as a conformance
     # mismatch on the chains of two and three of the verifier table.
     b = re.search(r"func verifyRawCerts\(.*?\n}\n", src, re.S)
     body = b.group(0) if b else ""
@@ -28,7 +30,7 @@ def consts(ctx):
                             bool(last or re.search(r":=\s*rawCerts\[0\]", body)), ""))
     ctx.add_const_raw("Definition verifyLeafLast : Z := %d." % last,
                       "certificate of the chain inspected by verifyRawCerts (1: the last, 0: the first = the TLS server certificate)")
-    ctx.notes.append("verifyLeafLast=%d (%s)" % (last, "pinned tree: c18_verify_server_cert_refuted applies" if last else "repaired verifier: c18_verify_server_cert_if_repaired applies"))
+    ctx.notes.append("verifyLeafLast=%d (%s)" % (last, "REGRESSION: the last certificate of the chain is inspected; c18_verifier_inspects_first no longer checks" if last else "the first certificate of the chain is inspected: c18_verify_server_cert holds unconditionally"))
 
 
 def harness(ctx, casefile, tier, seed):
@@ -212,6 +214,12 @@ if __name__ == "__main__":
     ctx.notes += [
         "outside the property text (see manifest level_note), reproduced and counted (input_distribution restart.dial_with_previous_period_address.outcome_2 vs running.dial_with_previous_period_address.outcome_0): after a restart lastConfig is nil, so a dial with an address learned in the previous period passes the certificate check (the served certificate is pinned, as the property states) but is refused in upgrade(), which demands confirmation of every hash of the address, not only of the one relied on",
     ]
+    if ctx.replay_path:
+        # a replay judges the recorded and the re-executed case with the constants of the tree it is
+        # replayed against (gen/Consts_c18.v may be left over from a run against another VERIF_REPO)
+        consts(ctx)
+        ctx.end_consts()
+        ctx.coq_build(["c18/Spec.vo"])
     standard_flow(ctx, dict(
         consts=consts,
         coq_targets=["c18/Properties.vo", "c18/Extract.vo"],
